@@ -21,8 +21,9 @@ def plan(tier):
                  ([("bounded", 3, 6, 8)], TAUS_Q, MRTS_Q, False),
                  ([("near", 2, 3)], [2.0 ** -30, U], [0.0], True)]
     else:
-        specs = [([("dense", 1, 7)], TAUS_T, MRTS_T, True),
-                 ([("bounded", 4, 8, 11)], TAUS_T, MRTS_T[:5], True),
+        specs = [([("dense", 1, 5)], TAUS_T, MRTS_T[:4], True),
+                 ([("dense", 6, 7)], TAUS_T, MRTS_Q, False),
+                 ([("bounded", 3, 8, 11)], TAUS_Q, MRTS_Q, False),
                  ([("near", 2, 4)], [2.0 ** -30, 2.0 ** -29, U], [0.0, 2.0 ** -27], True)]
     tasks, descs = [], []
     for regimes, taus, ms, full in specs:
